@@ -106,6 +106,8 @@ class Instance:
 
     __owner_builder: Optional[CodeBuilder] = None
     __self_builder: Optional[CodeBuilder] = None
+    # an element of a collection: the owner field's options don't apply to it
+    __is_element: bool = False
 
     # Original type despite custom serialization. To be revised.
     _original_type: Type = field(init=False)
@@ -115,7 +117,7 @@ class Instance:
 
     @cached_property
     def metadata(self) -> dict[str, Any]:
-        if self.name and self.__owner_builder:
+        if self.name and self.__owner_builder and not self.__is_element:
             return dict(**self.__owner_builder.metadatas.get(self.name, {}))
         else:
             return {}
@@ -153,10 +155,18 @@ class Instance:
                 get_forward_ref_referencing_globals(new_type, self.type),
                 self.__dict__,
             )
+        if "name" in changes:
+            # a field of its own, with its own options
+            changes.setdefault("_Instance__is_element", False)
         new_instance = replace(self, **changes)
         if is_dataclass(self.origin_type):
             new_instance.__owner_builder = self.__self_builder
         return new_instance
+
+    def derive_element(self, **changes: Any) -> "Instance":
+        # the (de)serializers build collection elements without the field's
+        # options (see pack_collection / unpack_collection)
+        return self.derive(_Instance__is_element=True, **changes)
 
     def __post_init__(self) -> None:
         self._original_type = self.type
@@ -790,7 +800,7 @@ def on_collection(instance: Instance, ctx: Context) -> Optional[JSONSchema]:
             instance,
             JSONArraySchema(
                 items=(
-                    _get_schema_or_none(instance.derive(type=args[0]), ctx)
+                    _get_schema_or_none(instance.derive_element(type=args[0]), ctx)
                     if args
                     else None
                 )
@@ -810,7 +820,7 @@ def on_collection(instance: Instance, ctx: Context) -> Optional[JSONSchema]:
             instance,
             JSONArraySchema(
                 items=(
-                    _get_schema_or_none(instance.derive(type=args[0]), ctx)
+                    _get_schema_or_none(instance.derive_element(type=args[0]), ctx)
                     if args
                     else None
                 ),
@@ -824,7 +834,7 @@ def on_collection(instance: Instance, ctx: Context) -> Optional[JSONSchema]:
             instance,
             JSONArraySchema(
                 items=get_schema(
-                    instance=instance.derive(
+                    instance=instance.derive_element(
                         type=(
                             dict[args[0], args[1]]  # type: ignore
                             if args
@@ -839,11 +849,11 @@ def on_collection(instance: Instance, ctx: Context) -> Optional[JSONSchema]:
         instance.origin_type, Counter
     ):
         schema = JSONObjectSchema(
-            additionalProperties=get_schema(instance.derive(type=int), ctx),
+            additionalProperties=get_schema(instance.derive_element(type=int), ctx),
         )
         if args:
             schema.propertyNames = _get_schema_or_none(
-                instance.derive(type=args[0]), ctx
+                instance.derive_element(type=args[0]), ctx
             )
         return apply_object_constraints(instance, schema)
     elif is_typed_dict(instance.origin_type):
@@ -853,12 +863,12 @@ def on_collection(instance: Instance, ctx: Context) -> Optional[JSONSchema]:
     ):
         schema = JSONObjectSchema(
             additionalProperties=(
-                _get_schema_or_none(instance.derive(type=args[1]), ctx)
+                _get_schema_or_none(instance.derive_element(type=args[1]), ctx)
                 if args
                 else None
             ),
             propertyNames=(
-                _get_schema_or_none(instance.derive(type=args[0]), ctx)
+                _get_schema_or_none(instance.derive_element(type=args[0]), ctx)
                 if args
                 else None
             ),
@@ -871,7 +881,7 @@ def on_collection(instance: Instance, ctx: Context) -> Optional[JSONSchema]:
             instance,
             JSONArraySchema(
                 items=(
-                    _get_schema_or_none(instance.derive(type=args[0]), ctx)
+                    _get_schema_or_none(instance.derive_element(type=args[0]), ctx)
                     if args
                     else None
                 )
